@@ -271,6 +271,13 @@ class Stream(Iterable[Elem]):
                 condition is checked first.
         """
 
+        # `isinstance` takes a class or a tuple of classes; the documented `[]` (or a list
+        # of classes) must not make it fail when the first exception object comes along.
+        if isinstance(drop_exc_types, list):
+            drop_exc_types = tuple(drop_exc_types)
+        if isinstance(keep_exc_types, list):
+            keep_exc_types = tuple(keep_exc_types)
+
         def foo(x):
             if isinstance(x, BaseException):
                 if keep_exc_types is not None and isinstance(x, keep_exc_types):
@@ -341,6 +348,8 @@ class Stream(Iterable[Elem]):
             exc_types = ()
         elif type(exc_types) is type:  # a class
             exc_types = (exc_types,)
+        else:
+            exc_types = tuple(exc_types)  # e.g. a list; `isinstance` needs a tuple
         if prefix:
             if not prefix.endswith(' ') and not prefix.endswith('\n'):
                 prefix = prefix + ' '
